@@ -382,3 +382,81 @@ func linkReaders(rs map[string]func(c dcase) error) {
 	rs["InstallPackages"] = pipe(true)
 	rs["InstallPackages-memfs"] = pipe(false)
 }
+
+// ---- final round: archive/tar's contract behind c15_tar_loops_terminate, on the hostile corpus ------------------
+// (Go only, exploration): Next hands over an entry only after reading its 512-byte header block from the
+// underlying stream (so k entries cost at least 512*k bytes), an error is handed over again by the following
+// calls, and the loop `for { Next; if err != nil { break } }` ends within len/512 + 1 turns.
+type countingReader struct {
+	r io.Reader
+	n int
+}
+
+func (c *countingReader) Read(p []byte) (int, error) { n, err := c.r.Read(p); c.n += n; return n, err }
+
+func tarContractProbe(r *gal.Rand, tier string) {
+	var corpus [][]byte
+	good := append(rawHdr{name: "usr/", typeflag: '5', mode: "0000755\x00"}.bytes(), rawHdr{name: "usr/f", typeflag: '0', body: []byte(strings.Repeat("x", 700))}.bytes()...)
+	for _, t := range hostileTarEntries() {
+		corpus = append(corpus, t.blocks, append(append([]byte{}, t.blocks...), good...), append(append([]byte{}, good...), t.blocks...))
+	}
+	for _, e := range declEncodings() {
+		corpus = append(corpus, e.mk("DESCRIPTION", '0', []byte("abc"), ""), append(e.mk("f", '0', nil, ""), good...))
+	}
+	for _, sh := range linkShapes(gal.NewRand(5), 5) {
+		corpus = append(corpus, linkTar(sh.ents))
+	}
+	n := 300
+	if tier == "thorough" {
+		n = 6000
+	}
+	for i := 0; i < n; i++ {
+		b := append(append([]byte{}, good...), make([]byte, 1024)...)
+		for k, m := 0, 1+r.Intn(4); k < m; k++ {
+			b = mutate(r, b)
+		}
+		corpus = append(corpus, b)
+	}
+	bad, maxTurns := 0, 0
+	for _, in := range corpus {
+		cr := &countingReader{r: bytes.NewReader(in)}
+		tr := tar.NewReader(cr)
+		entries, turns := 0, 0
+		what := ""
+		for {
+			turns++
+			_, err := tr.Next()
+			if err != nil {
+				for k := 0; k < 2; k++ {
+					if _, e2 := tr.Next(); e2 == nil {
+						what = "Next returned an entry after it had returned the error " + err.Error()
+					}
+				}
+				break
+			}
+			entries++
+			if cr.n < 512*entries {
+				what = fmt.Sprintf("%d entries handed over after reading %d bytes", entries, cr.n)
+				break
+			}
+			if turns > len(in)/512+2 {
+				what = fmt.Sprintf("more than len/512 + 1 turns (%d bytes, %d turns)", len(in), turns)
+				break
+			}
+		}
+		if turns > len(in)/512+1 && what == "" {
+			what = fmt.Sprintf("%d turns for %d bytes", turns, len(in))
+		}
+		if turns > maxTurns {
+			maxTurns = turns
+		}
+		if what != "" {
+			bad++
+			if bad <= 3 {
+				j, _ := json.Marshal(map[string]any{"reader": "archive/tar.Reader.Next", "what": what, "input_len": len(in), "input_base64": base64.StdEncoding.EncodeToString(head(in, 2048))})
+				fmt.Printf("IMPL-VIOLATION tag=tar-next-contract %s\n", j)
+			}
+		}
+	}
+	fmt.Printf("STAT {\"tar_next_contract_streams\": %d, \"tar_next_contract_broken\": %d, \"tar_next_contract_max_turns\": %d}\n", len(corpus), bad, maxTurns)
+}
